@@ -17,15 +17,15 @@ def getChunkKeys : Nat → Bytes → Res Bytes
   | n+1, b =>
     (readMapKey .stream b).bind fun k b1 =>
       if k = kChunk then readMapKey .bytes b1
-      else (skip b1).bind fun _ b2 => getChunkKeys n b2
+      else (skipP .stream b1).bind fun _ b2 => getChunkKeys n b2
 
 /-- `GetChunk` -/
 def getChunk (b : Bytes) : Res Bytes :=
   (readArrayHeader b).bind fun sz b1 =>
     if sz = 2 then .err else
-    (skip b1).bind fun _ b2 =>
-    (if isTimestampType b2 then (if sz = 3 then .err else skip b2) else .ok () b2).bind fun _ b3 =>
-    (skip b3).bind fun _ b4 =>
+    (skipP .stream b1).bind fun _ b2 =>
+    (if isTimestampType b2 then (if sz = 3 then .err else skipP .stream b2) else .ok () b2).bind fun _ b3 =>
+    (skipP .stream b3).bind fun _ b4 =>
     (readMapHeader b4).bind fun n b5 => getChunkKeys n b5
 
 end FV
